@@ -400,7 +400,7 @@ def gen_scenario(rng: Any, seed: int) -> dict:
         t += rng.choice([1.0, 4.0, 9.0])
         timeline.append([t, "fins", "a", []])
     sc: dict[str, Any] = {"seed": seed, "handlers": handlers, "timeline": timeline,
-                          "settings": {"execution.default_backoff": rng.choice([1.0, 2.0])}}
+                          "settings": {"execution.default_backoff": rng.choice([1.0, 2.0]), "background.cancellation_polling": rng.choice([0.5, 1.0, 2.0])}}
     if rng.random() < 0.35:
         op = foreign_op() if rng.random() < 0.85 else ["delete", "a"]
         slip: dict[str, Any] = {"nth": rng.randrange(1, 9), "op": op}
@@ -655,18 +655,39 @@ def classify_early(view: View, cyc: dict | None, req: dict, uid: str, T: float) 
     return SIG_EARLY, ""
 
 
-def _requiring(view: View, cyc: dict, labels: dict) -> list[str]:
-    out = []
+def _surely_forever(view: View, h: dict, uid: str, inc: int, T: float) -> bool:
+    """The daemon ran in this process and exited on its own accord while nobody was stopping it: the object was
+    unmarked and matched its filters during its whole life, and its process was up (kopf never respawns such a daemon)."""
+    for c in view.tr["calls"]:
+        if c["id"] != h["id"] or c.get("uid") != uid or c["inc"] != inc or c.get("outcome") != "exited-on-its-own":
+            continue
+        if c.get("t_end") is None or c["t_end"] > T or view.ends.get(inc, float("inf")) <= c["t_end"]:
+            continue
+        vs = view.versions(uid)
+        during = [v for v in vs if c["t"] <= v["t"] <= c["t_end"]]
+        before = [v for v in vs if v["t"] < c["t"]]
+        if all(not _meta(v["body"]).get("deletionTimestamp") and _match(h, _labels(v["body"])) and v["event"] != "DELETED"
+               for v in during + before[-1:]):
+            return True
+    return False
+
+
+def _requiring(view: View, cyc: dict, labels: dict) -> tuple[list[str], list[str]]:
+    """(handlers that certainly require the finalizer on an object with these labels, handlers that possibly do)."""
+    sure, possible = [], []
     for h in view.handlers:
         if not _match(h, labels):
             continue
-        if h["kind"] == "delete" and not (h.get("opts") or {}).get("optional"):
-            out.append(h["id"])
-        elif h["kind"] == "timer":
-            out.append(h["id"])
-        elif h["kind"] == "daemon" and not view.exited_on_its_own(h, cyc.get("uid"), cyc["inc"], cyc["t0"]):
-            out.append(h["id"])
-    return out
+        if h["kind"] == "delete" and not (h.get("opts") or {}).get("optional") or h["kind"] == "timer":
+            sure.append(h["id"])
+            possible.append(h["id"])
+        elif h["kind"] == "daemon":
+            if not _surely_forever(view, h, cyc.get("uid"), cyc["inc"], cyc["t0"]):
+                possible.append(h["id"])
+            if not any(c["id"] == h["id"] and c.get("uid") == cyc.get("uid") and c["inc"] == cyc["inc"]
+                       and c.get("outcome") == "exited-on-its-own" for c in view.tr["calls"]):
+                sure.append(h["id"])
+    return sure, possible
 
 
 def check_cycle(ctx: Ctx, view: View, sc: dict, cyc: dict) -> None:
@@ -677,7 +698,7 @@ def check_cycle(ctx: Ctx, view: View, sc: dict, cyc: dict) -> None:
         return
     body = cyc["body"]
     fins, labels, marked = _fins(body), _labels(body), bool(_meta(body).get("deletionTimestamp"))
-    req_by = _requiring(view, cyc, labels)
+    req_sure, req_by = _requiring(view, cyc, labels)
     merge, js = _main_requests(view, cyc)
     if merge is not None and merge.get("response") != 200:
         return
@@ -687,14 +708,14 @@ def check_cycle(ctx: Ctx, view: View, sc: dict, cyc: dict) -> None:
         after = _fins(js["result"])
     rejected = js is not None and js.get("response") != 200
     want = None
-    if not marked and OWN not in fins and req_by:
+    if not marked and OWN not in fins and req_sure:
         want = True
     elif OWN in fins and not req_by:
         want = False
     if want is not None and not rejected:
         have = (OWN in after) if after is not None else (OWN in fresh)
         if have != want:
-            what = (f"cycle {cyc['i']} saw an unmarked object without the finalizer matched by {req_by} and did not add it" if want else
+            what = (f"cycle {cyc['i']} saw an unmarked object without the finalizer matched by {req_sure} and did not add it" if want else
                     f"cycle {cyc['i']} saw the finalizer on an object that no finalizer-requiring handler matches and did not remove it")
             ctx.oracle_fail(what, {"scenario": sc, "cycle": cyc["i"], "labels": labels, "finalizers": fins, "json_patch": js and js.get("payload")},
                             {"site": "processing.process_resource_causes", "shape": "not added when required" if want else "not removed when not required"})
@@ -725,6 +746,9 @@ def check_liveness(ctx: Ctx, view: View, sc: dict, tr: dict) -> None:
     for key, body in tr["final_objects"].items():
         if not key.startswith("kopfexamples/"):
             continue
+        mine = [c for c in tr["cycles"] if c.get("uid") == _meta(body).get("uid")]
+        if mine and (mine[-1].get("error") or mine[-1].get("t1", end) >= end):
+            continue   # a cycle is still sleeping on a delay when the scenario ends
         m = _meta(body)
         if not m.get("deletionTimestamp") or OWN not in _fins(body):
             continue
